@@ -33,3 +33,10 @@ func verifPoint(name string) {
 		}
 	}
 }
+
+// verifNow is the clock seam of NewVersion: with VERIF_NOW=<version> the harness
+// decides the version stamped into new file names.
+func verifNow() (string, bool) {
+	v := os.Getenv("VERIF_NOW")
+	return v, v != ""
+}
